@@ -15,6 +15,7 @@
 #include <map>
 #include <memory>
 #include <new>
+#include <stdexcept>
 #include <sstream>
 #include <string>
 #include <thread>
@@ -58,6 +59,26 @@ namespace
 struct HarnessExc
 {
 };
+// the exception a slot body throws varies in its dynamic type (all are caught as HarnessExc by the harness)
+struct HarnessExcBadAlloc : std::bad_alloc, HarnessExc
+{
+};
+struct HarnessExcRuntime : std::runtime_error, HarnessExc
+{
+  HarnessExcRuntime() : std::runtime_error("harness") {}
+};
+[[noreturn]] inline void throw_harness_exc(long salt)
+{
+  switch (salt % 3)
+  {
+    case 0:
+      throw HarnessExc();
+    case 1:
+      throw HarnessExcBadAlloc();
+    default:
+      throw HarnessExcRuntime();
+  }
+}
 
 struct Interp;
 thread_local Interp* g_interp = nullptr;
@@ -1412,7 +1433,7 @@ struct Interp
     }
     if (op == "throw" && N(0))
     {
-      throw HarnessExc();
+      throw_harness_exc(steps);
     }
     if (op == "clear" && N(1))
     {
@@ -1730,8 +1751,53 @@ struct Interp
         D(Interp* i_) : i(i_) { ++i->depth; }
         ~D() { --i->depth; }
       } d(this);
-      for (const auto& l : b)
+      for (size_t li = 0; li < b.size(); ++li)
+      {
+        const std::string& l = b[li];
+        // variation without a model counterpart: `emit G a` directly followed by `throw` is, for every
+        // other such pair, performed *during stack unwinding*: the throw comes first and the emission
+        // is made by the destructor of a local scope guard (which contains its own exceptions).  The
+        // observable history is the same: the emission's result line, then `throw => exc` unless the
+        // emission itself threw (then the body ended there).
+        if (li + 1 < b.size() && b[li + 1] == "throw" && l.rfind("emit ", 0) == 0 && (fid + (int)li + arg) % 2 == 0)
+        {
+          struct Guard
+          {
+            Interp* i;
+            const std::string& line;
+            bool inner_exc = false;
+            bool* out;
+            ~Guard()
+            {
+              try
+              {
+                i->run_line(line);
+              }
+              catch (HarnessExc&)
+              {
+                inner_exc = true;
+              }
+              *out = inner_exc;
+            }
+          };
+          bool inner_exc = false;
+          try
+          {
+            Guard g{this, l, false, &inner_exc};
+            throw_harness_exc(steps + 1);
+          }
+          catch (HarnessExc&)
+          {
+            if (!inner_exc)
+            {
+              ++steps;
+              emitline(b[li + 1] + " => exc");
+            }
+            throw;
+          }
+        }
         run_line(l);
+      }
     }
     return (fid * 10 + arg) % 97;
   }
